@@ -22,17 +22,19 @@
    hooks the sorted slice holds first, when a failed hook's error was cached (decides which error is the first), when the
    shutdown context's timer fired relative to events of the same instant. *)
 EXTENDS Lifecycle, TraceCommon
-tvars == <<vars, tr, l>>
+VARIABLE seen       \* the Ret event has been consumed
+tvars == <<vars, tr, l, seen>>
 R == Trace[1]
-TraceInit == /\ TrInit
+TraceInit == /\ TrInit /\ seen = FALSE
              /\ IF TLen >= 1 /\ Trace[1].ev = "Reset" THEN InitWith(R.starts, R.stops, R.cancelAt, R.lates) ELSE Init
 Last(s) == s[Len(s)]
 Clock == CheckInv("Clock", Ev.t = now)
 
-TReset == IsEvent("Reset") /\ l = 1 /\ UNCHANGED vars
-TCancel == IsEvent("Cancel") /\ EnvCancel /\ Clock
-TRun == IsEvent("Run") /\ RunCall /\ Clock
-TLate == /\ IsEvent("Late") /\ Clock
+Keep == UNCHANGED seen
+TReset == IsEvent("Reset") /\ l = 1 /\ UNCHANGED vars /\ Keep
+TCancel == IsEvent("Cancel") /\ EnvCancel /\ Clock /\ Keep
+TRun == IsEvent("Run") /\ RunCall /\ Clock /\ Keep
+TLate == /\ IsEvent("Late") /\ Clock /\ Keep
          /\ \E i \in DOMAIN lates : lates[i].what = Ev.what /\ EnvLate(i)
          /\ CheckInv("LateRegistrationPanics", Ev.panicked = Last(latelog').panicked)
 
@@ -40,7 +42,7 @@ EnterOK(s) == /\ Clock
               /\ CheckInv("HookContext", Ev.app = (s.ctx = "app") /\ Ev.dl = s.dl)
               /\ CheckInv("LateRegistrationPanics", Ev.late = "none" \/ Ev.panicked = Last(latelog').panicked)
 TEnter ==
-  /\ IsEvent("Enter")
+  /\ IsEvent("Enter") /\ Keep
   /\ CASE Ev.kind = "start" /\ Ev.id \in DOMAIN starts ->
             /\ Ev.late = starts[Ev.id].late
             /\ IF Async(Ev.id) THEN AsyncEnter(Ev.id) ELSE mpc = "call" /\ cur = Ev.id /\ CallSync
@@ -55,7 +57,7 @@ TEnter ==
 
 CtxState(s) == IF DoneAt(s.ctx) >= 0 THEN Cause(s.ctx) ELSE ""
 TExit ==
-  /\ IsEvent("Exit") /\ Clock
+  /\ IsEvent("Exit") /\ Clock /\ Keep
   /\ CASE Ev.kind = "start" /\ Ev.id \in DOMAIN starts ->
             /\ CheckInv("ContextState", Ev.cerr = CtxState(hs[Ev.id]))
             /\ IF Async(Ev.id) THEN AsyncExit(Ev.id, Ev.res) ELSE mpc = "insync" /\ cur = Ev.id /\ SyncExit(Ev.res)
@@ -64,17 +66,18 @@ TExit ==
             /\ mpc = "instop" /\ cur = Ev.id /\ StopExit(Ev.res)
        [] OTHER -> FALSE
 
-RetOK == LET r == ret' IN
-  CheckInv("RunResult", /\ Ev.kind = r.kind
-                        /\ r.kind \in {"start", "stop"} => Ev.id = r.id /\ Ev.hk = r.kind
-                        /\ r.kind \in {"start", "stop", "timeout"} => Ev.ord = r.ord)
-TRet == /\ IsEvent("Ret")
+\* Run has returned (Finish / CallBad happened: silent, their effects -- the deferred cancel of the start context -- may
+\* show in other goroutines' events before the executor gets to log the result)
+RetOK == CheckInv("RunResult", /\ Ev.kind = ret.kind
+                               /\ ret.kind \in {"start", "stop"} => Ev.id = ret.id /\ Ev.hk = ret.kind
+                               /\ ret.kind \in {"start", "stop", "timeout"} => Ev.ord = ret.ord)
+TRet == /\ IsEvent("Ret") /\ ~seen /\ seen' = TRUE /\ UNCHANGED vars
         /\ CASE mpc \in {"start", "call"} /\ appDoneAt < 0 /\ ~(mpc = "call" /\ starts[cur].typ = "bad") -> InvFail("RunReturnedWhileStarting")
              [] mpc = "await" /\ appDoneAt < 0 -> InvFail("RunReturnedWithoutShutdown")
              [] mpc \in StopPcs /\ todoP # {} /\ stopDone = "none" -> InvFail("StopHooksSkipped")
-             [] OTHER -> (Finish \/ CallBad) /\ Clock /\ RetOK
+             [] OTHER -> mpc = "done" /\ Clock /\ RetOK
 \* nothing is due any more before the executor stopped watching
-TEnd == /\ IsEvent("End") /\ mpc = "done" /\ ~Busy /\ Ev.t >= now
+TEnd == /\ IsEvent("End") /\ mpc = "done" /\ seen /\ Keep /\ ~Busy /\ Ev.t >= now
         /\ CheckInv("EventMissingBeforeEnd", IF Future = {} THEN TRUE ELSE MinOf(Future) > Ev.t)
         /\ UNCHANGED vars
 
@@ -92,10 +95,10 @@ Picks == LET C == NextOf(todoS, starts, "asc")
              B == {h \in C : starts[h].typ = "bad"}
          IN (IF A = {} THEN {} ELSE {CHOOSE h \in A : \A g \in A : Pos(h) <= Pos(g)})
             \cup (C \cap {NextSync}) \cup (IF B = {} THEN {} ELSE {MinOf(B)})
-TTick == Tick /\ Silent /\ l <= TLen /\ Has(Ev, "t") /\ now' <= Ev.t
-TSilent == /\ \/ LoopEnd \/ (\E h \in Picks : LoopPick(h)) \/ Launch \/ SyncHandle \/ Await \/ StopLoopEnd \/ HandleStop \/ Deadline
+TTick == Tick /\ Silent /\ Keep /\ l <= TLen /\ Has(Ev, "t") /\ now' <= Ev.t
+TSilent == /\ \/ LoopEnd \/ (\E h \in Picks : LoopPick(h)) \/ Launch \/ SyncHandle \/ Await \/ StopLoopEnd \/ HandleStop \/ Deadline \/ Finish \/ CallBad
               \/ \E h \in DOMAIN hs : AsyncHandle(h)
-           /\ Silent
+           /\ Silent /\ Keep
 TraceNext == TReset \/ TCancel \/ TRun \/ TLate \/ TEnter \/ TExit \/ TRet \/ TEnd \/ TTick \/ TSilent
 TraceSpec == TraceInit /\ [][TraceNext]_tvars
 Mark == /\ CheckInv("TypeOK", TypeOK) /\ CheckInv("StartOrder", StartOrder) /\ CheckInv("SyncBarrier", SyncBarrier)
